@@ -555,6 +555,8 @@ def link_format_from_message(message):
                 # lookups resolve them against the registration's base
                 urljoin("coap://x/", link.href)
                 if "anchor" in link:
+                    if link.anchor is None:
+                        raise ValueError("Anchor without a value")
                     urljoin("coap://x/", link.anchor)
             return links
         else:
